@@ -154,23 +154,7 @@ def check(run, F, tier):
         r4.ok("notify_closed", {"paths_not_stored": nns})
 
     r5 = run.rule("C07-R5", "who-may-write qos2_publish_handled (reference list)", floor=1)
-    idx = conn.gc_fields(F)[SET]["i"]
-    writers = set()
-    for f in F.fns.values():
-        for b in f["blocks"]:
-            for st in b["stmts"]:
-                places = []
-                if st["k"] == "assign":
-                    places.append(st["lhs"])
-                    if st["rv"]["k"] == "ref" and st["rv"].get("mut"):
-                        places.append(st["rv"]["place"])
-                    if st["rv"]["k"] == "agg" and st["rv"].get("adt") == conn.GC_ADT:
-                        writers.add("new")
-                for pl in places:
-                    for el in pl["p"]:
-                        if isinstance(el, dict) and el.get("a") == conn.GC_ADT and el.get("n") == SET:
-                            writers.add(f["path"].split("::")[-1] if f.get("kind") != "Closure" else f["parent"].split("::")[-1])
-    extra = writers - EXPECTED_WRITERS
+    extra, writers = conn.offending_writers(F, SET, EXPECTED_WRITERS)
     if extra:
         r5.violation("writers", "qos2_publish_handled is written by %s, outside the reference list" % sorted(extra))
     else:
